@@ -93,6 +93,10 @@ type simWorld struct {
 	writeErr      func(conn, n int, dst netip.Addr) error
 	dialResult    func(n int) error // nil = success
 	dialResultFor func(iface string, n int) error
+	// the hardware address (and index) the n-th dial of an interface reports (nil: always vkMACFor; an interface that
+	// is re-created between two dials comes back with other ones), and what each connection was given
+	macFor  func(iface string, n int) net.HardwareAddr
+	connMAC map[int]net.HardwareAddr
 }
 
 type simStateCall struct {
@@ -376,9 +380,19 @@ func (w *simWorld) newDialer(iface string, mode system.DialerMode) *system.Diale
 		}
 		c := w.newConn()
 		w.eventf("dial %d ok -> conn %d", i, c.id)
+		mac, index := vkMACFor(iface), 1
+		if w.macFor != nil {
+			mac, index = w.macFor(iface, i), 1+i*7
+		}
+		w.mu.Lock()
+		if w.connMAC == nil {
+			w.connMAC = map[int]net.HardwareAddr{}
+		}
+		w.connMAC[c.id] = mac
+		w.mu.Unlock()
 		return &system.DialContext{
 			Conn:      c,
-			Interface: &net.Interface{Index: 1, Name: iface, HardwareAddr: vkMACFor(iface), MTU: 1500, Flags: net.FlagUp},
+			Interface: &net.Interface{Index: index, Name: iface, HardwareAddr: mac, MTU: 1500, Flags: net.FlagUp},
 			IP:        netip.MustParseAddr("fe80::1"),
 		}, nil
 	}
